@@ -59,7 +59,7 @@ CHECKS = {
    technique='CBMC code contracts (DFCC): exceptional postconditions, frame and pointer obligations on mechanically lowered code', design='4 C02'),
  'C04': dict(
    text='Every operator, comparison, compound assignment, lifted <cmath> function, select and value_or overload of xoptional and xmasked_value that clang instantiates for the generated shape matrix '
-        '(each argument position optional/masked or plain; value and reference closures; int flags for equality; double operands for the ordering comparisons) - 350 overloads - is lowered and proved against a GENERATED contract: '
+        '(each argument position optional/masked or plain; value and reference closures; int flags for equality; double operands for the ordering comparisons, two mixed float/double fma shapes) - 352 overloads - is lowered and proved against a GENERATED contract: '
         'presence(result) == AND of the operand presences, value == the same operation on the underlying values, a missing result leaves a compound-assignment target untouched, == / != / select / value_or as stated; '
         'integer / % /= %= carry the division-by-zero obligation with no precondition on a missing operand, which proves non-evaluation. Loop-free: complete.',
    note=PROOF_NOTE + 'Operand types int and double; machine * / % and <cmath> functions are uninterpreted functions shared by code and spec; non-evaluation of non-trapping operations is not observable with these types.',
